@@ -119,6 +119,18 @@ def step (st : DSt) (toks : List String) : DSt × String :=
     let oks := (if outer.1.success then 1 else 0) + (if innerR.1.success then nestedN else 0)
     ({ st with runs := st.runs + 1 + nestedN, okRuns := st.okRuns + oks, badRuns := st.badRuns + (1 + nestedN - oks) },
      String.intercalate " | " (render outer :: List.replicate nestedN (render innerR)))
+  | ["set", "halt", v] => ({ st with cfg := ⟨boolOf v, st.cfg.maxAmp⟩ }, "ok")      -- public attributes re-assigned between runs
+  | ["set", "max", v] => ({ st with cfg := ⟨st.cfg.halt, ratOf v⟩ }, "ok")
+  | ["setgate", name, kind] =>
+    match st.names.findIdx? (· == name) with
+    | some i =>
+      let g := (mkStage 0 kind "ok" "none" true 1).checkpoint
+      ({ st with stages := st.stages.modify i fun s => { s with checkpoint := g } }, "1")
+    | none => (st, "0")
+  | ["setamp", name, v] =>
+    match st.names.findIdx? (· == name) with
+    | some i => ({ st with stages := st.stages.modify i fun s => { s with amp := ratOf v } }, "1")
+    | none => (st, "0")
   | ["prun", x] =>
     -- run_parallel: order-insensitive rendering (the code collects results in completion order of its worker threads)
     match runParallel st.stages (natD x) with
